@@ -49,7 +49,10 @@ Check C16_resolve_fk_fuel_mono : forall s fuel rt rcs visited r,
   resolve_fk_chain fuel s rt rcs visited = Some r ->
   forall fuel', (fuel <= fuel')%nat -> resolve_fk_chain fuel' s rt rcs visited = Some r.
 
-(* computing the declarations of a table never exhausts any fuel (FK walk, unique_name loop) *)
+(* computing the declarations of a table never exhausts any fuel (FK walk, unique_name loop); the relation-enum
+   disambiguation appends the table name once and has no loop at all (UniqueP.separator_table_renders: a table named
+   `_` renders, with a duplicate relation enum) — K-exp holds the real exporter to this on tables whose names consist
+   of separators only, rendered under a wall-clock cap *)
 Theorem C16_members_never_diverge : forall s t, members s t <> Err XDiverge.
 Proof. exact members_never_diverge. Qed.
 Print Assumptions C16_members_never_diverge.
@@ -74,5 +77,6 @@ Example C16_nonvacuous :
   /\ resolve_fk_target (resolve_fuel [cyc_a; cyc_b]) [cyc_a; cyc_b] "b" ["y"] = Some ("b", ["y"])
   /\ resolve_fk_target (resolve_fuel [cyc_self]) [cyc_self] "a" ["x"] = Some ("a", ["x"])
   /\ resolve_fk_target (resolve_fuel [rho_c; rho_d; cyc_self]) [rho_c; rho_d; cyc_self] "d" ["z"] = Some ("a", ["x"])
-  /\ resolve_fk_target 3 [d14_user; d14_post] "user" ["id"] = Some ("user", ["id"]).
-Proof. repeat split; vm_compute; reflexivity. Qed.
+  /\ resolve_fk_target 3 [d14_user; d14_post] "user" ["id"] = Some ("user", ["id"])
+  /\ (exists d, members [sep_user; sep_table] sep_table = Ok d).
+Proof. repeat split; try (vm_compute; reflexivity). eexists. vm_compute. reflexivity. Qed.
